@@ -1,87 +1,97 @@
 (* Proofs about the reduced model of literal normalisation (Cache/Normalize.v). *)
-From Coq Require Import List NArith Bool Lia.
+From Coq Require Import List NArith Bool Lia FinFun.
 From GQL Require Import Cache.Normalize.
 Import ListNotations.
 Open Scope N_scope.
 
 Section NormProofs.
-  Context {L cval mixed deco : Type}.
-  Variable L_eqb : L -> L -> bool.
+  Context {L cval : Type}.
+  Notation value := (@value L).
+  Notation sel := (@sel L).
+  Notation nst := (@nst L cval).
+  Variable value_eqb : value -> value -> bool.
   Variable cval_eqb : cval -> cval -> bool.
-  Variable mixed_vars : mixed -> list name.
-  Variable deco_vars : deco -> list name.
   Variable synth_name : N -> name.
   Variable field_def : otype -> name -> option (option otype).
   Variable arg_ty : otype -> name -> name -> option ty.
+  Variable dir_arg_ty : name -> name -> option ty.
   Variable tc_obj : name -> option otype.
-  Variable lit_coerce : ty -> L -> option cval.
+  Variable coerce : ty -> value -> (name -> option cval) -> option cval.
+  Variable lit_valid : ty -> value -> bool.
   Variable var_coerce : ty -> cval -> option cval.
   Variable taken : list name.
-  Variable fuel : nat.
   Variable env : name -> option cval.
 
-  Hypothesis L_eqb_eq : forall a b, L_eqb a b = true -> a = b.
+  Hypothesis value_eqb_eq : forall a b, value_eqb a b = true -> a = b.
+  Hypothesis value_eqb_refl : forall a, value_eqb a a = true.
   Hypothesis cval_eqb_eq : forall a b, cval_eqb a b = true -> a = b.
   Hypothesis synth_name_inj : forall a b, synth_name a = synth_name b -> a = b.
+  (* valueFromAST reads the variables that occur in the value, and a variable is its value *)
+  Hypothesis coerce_local : forall t v e1 e2, (forall x, In x (value_vars v) -> e1 x = e2 x) -> coerce t v e1 = coerce t v e2.
+  Hypothesis coerce_var : forall t x e, coerce t (VVar x) e = e x.
 
-  Notation value := (@value L mixed).
-  Notation sel := (@sel L mixed deco).
-  Notation nst := (@nst L cval).
-  Notation try_extract := (try_extract L_eqb cval_eqb synth_name lit_coerce var_coerce taken fuel).
-  Notation norm_args := (norm_args L_eqb cval_eqb synth_name arg_ty lit_coerce var_coerce taken fuel).
-  Notation norm_sel := (norm_sel L_eqb cval_eqb synth_name field_def arg_ty tc_obj lit_coerce var_coerce taken fuel).
-  Notation normalize := (normalize L_eqb cval_eqb synth_name field_def arg_ty tc_obj lit_coerce var_coerce taken fuel).
-  Notation denote := (denote mixed_vars deco_vars field_def arg_ty tc_obj lit_coerce).
-  Notation denote_arg := (denote_arg mixed_vars lit_coerce).
-  Notation opaque := (opaque mixed_vars deco_vars).
-  Notation sel_vars := (sel_vars mixed_vars deco_vars).
-  Notation value_vars := (value_vars mixed_vars).
+  Notation extract_value := (extract_value cval_eqb coerce lit_valid var_coerce).
+  Notation find_shared := (find_shared value_eqb).
+  Notation try_extract := (try_extract value_eqb cval_eqb synth_name coerce lit_valid var_coerce taken).
+  Notation norm_args := (norm_args value_eqb cval_eqb synth_name arg_ty coerce lit_valid var_coerce taken).
+  Notation norm_sel := (norm_sel value_eqb cval_eqb synth_name field_def arg_ty tc_obj coerce lit_valid var_coerce taken).
+  Notation normalize := (normalize value_eqb cval_eqb synth_name field_def arg_ty tc_obj coerce lit_valid var_coerce taken).
+  Notation sub_value := (sub_value value_eqb cval_eqb coerce lit_valid var_coerce).
+  Notation sub_args := (sub_args value_eqb cval_eqb arg_ty coerce lit_valid var_coerce).
+  Notation sub_sel := (sub_sel value_eqb cval_eqb field_def arg_ty tc_obj coerce lit_valid var_coerce).
+  Notation denote := (denote field_def arg_ty dir_arg_ty tc_obj coerce).
+  Notation denote_arg := (denote_arg coerce).
+  Notation denote_dir := (denote_dir dir_arg_ty coerce).
 
   (* induction on selections with the sub-selections covered *)
   Fixpoint sel_ind' (P : sel -> Prop)
-           (HF : forall d nm args sub, Forall P sub -> P (Field d nm args sub))
-           (HI : forall d tc sub, Forall P sub -> P (Inline d tc sub))
-           (HS : forall d f, P (Spread d f)) (s : sel) {struct s} : P s :=
+           (HF : forall al nm args ds sub, Forall P sub -> P (Field al nm args ds sub))
+           (HI : forall tc ds sub, Forall P sub -> P (Inline tc ds sub))
+           (HS : forall f ds, P (Spread f ds)) (s : sel) {struct s} : P s :=
     match s with
-    | Field d nm args sub =>
-      HF d nm args sub ((fix go (l : list sel) : Forall P l :=
-                           match l with [] => Forall_nil P | x :: r => Forall_cons x (sel_ind' P HF HI HS x) (go r) end) sub)
-    | Inline d tc sub =>
-      HI d tc sub ((fix go (l : list sel) : Forall P l :=
-                      match l with [] => Forall_nil P | x :: r => Forall_cons x (sel_ind' P HF HI HS x) (go r) end) sub)
-    | Spread d f => HS d f
+    | Field al nm args ds sub =>
+      HF al nm args ds sub ((fix go (l : list sel) : Forall P l :=
+                               match l with [] => Forall_nil P | x :: r => Forall_cons x (sel_ind' P HF HI HS x) (go r) end) sub)
+    | Inline tc ds sub =>
+      HI tc ds sub ((fix go (l : list sel) : Forall P l :=
+                       match l with [] => Forall_nil P | x :: r => Forall_cons x (sel_ind' P HF HI HS x) (go r) end) sub)
+    | Spread f ds => HS f ds
     end.
 
   (* ---- states ---- *)
 
   Definition ext (a b : nst) : Prop := incl (n_synth a) (n_synth b).
 
+  (* what is shared stays shared, under the same name *)
+  Definition sext (a b : nst) : Prop :=
+    forall t v x, find_shared t v (n_shared a) = Some x -> find_shared t v (n_shared b) = Some x.
+
   Definition wf (st : nst) : Prop :=
     (forall x t c, In (x, (t, c)) (n_synth st) ->
                    var_coerce t c = Some c /\ ~ In x taken /\ exists k, k < n_counter st /\ x = synth_name k) /\
-    (forall t l x, In (t, l, x) (n_shared st) -> exists c, lit_coerce t l = Some c /\ In (x, (t, c)) (n_synth st)) /\
-    (forall x t1 c1 t2 c2, In (x, (t1, c1)) (n_synth st) -> In (x, (t2, c2)) (n_synth st) -> t1 = t2 /\ c1 = c2).
+    (forall t v x, In (t, v, x) (n_shared st) -> exists c, extract_value t v = Some c /\ In (x, (t, c)) (n_synth st)) /\
+    (forall x t1 c1 t2 c2, In (x, (t1, c1)) (n_synth st) -> In (x, (t2, c2)) (n_synth st) -> t1 = t2 /\ c1 = c2) /\
+    (forall t1 v1 t2 v2 x, In (t1, v1, x) (n_shared st) -> In (t2, v2, x) (n_shared st) -> t1 = t2 /\ v1 = v2).
 
-  (* env' gives every synthetic variable its extracted value and leaves the
-     variables of the document alone *)
   Definition agrees (env' : name -> option cval) (st : nst) : Prop :=
     (forall x t c, In (x, (t, c)) (n_synth st) -> env' x = Some c) /\
     (forall y, In y taken -> env' y = env y).
 
   Lemma ext_refl : forall a, ext a a.
   Proof. intro a. apply incl_refl. Qed.
-
   Lemma ext_trans : forall a b c, ext a b -> ext b c -> ext a c.
   Proof. intros a b c. apply incl_tran. Qed.
+  Lemma sext_refl : forall a, sext a a.
+  Proof. intros a t v x H. exact H. Qed.
+  Lemma sext_trans : forall a b c, sext a b -> sext b c -> sext a c.
+  Proof. intros a b c H1 H2 t v x H. apply H2. apply H1. exact H. Qed.
 
   Lemma agrees_ext : forall env' a b, ext a b -> agrees env' b -> agrees env' a.
   Proof. intros env' a b E [H1 H2]. split; [|exact H2]. intros x t c Hin. apply (H1 x t c). apply E. exact Hin. Qed.
 
   Lemma restrict_agree : forall (e1 e2 : name -> option cval) xs,
     (forall x, In x xs -> e1 x = e2 x) -> restrict e1 xs = restrict e2 xs.
-  Proof.
-    intros e1 e2 xs H. unfold restrict. apply map_ext_in. intros x Hx. rewrite (H x Hx). reflexivity.
-  Qed.
+  Proof. intros e1 e2 xs H. unfold restrict. apply map_ext_in. intros x Hx. rewrite (H x Hx). reflexivity. Qed.
 
   Lemma mem_true : forall x l, mem x l = true <-> In x l.
   Proof.
@@ -89,6 +99,8 @@ Section NormProofs.
     - intros [y [Hy E]]. apply N.eqb_eq in E. subst. exact Hy.
     - intro H. exists x. split; [exact H|apply N.eqb_refl].
   Qed.
+
+  (* ---- nextName ---- *)
 
   Lemma next_name_spec : forall f k x k', next_name synth_name taken f k = Some (x, k') ->
     ~ In x taken /\ exists j, k <= j /\ j < k' /\ x = synth_name j.
@@ -101,13 +113,50 @@ Section NormProofs.
       + exists k. repeat split; lia.
   Qed.
 
-  Lemma find_shared_spec : forall t l sh x, find_shared L_eqb t l sh = Some x -> In (t, l, x) sh.
+  Lemma next_name_none : forall f k, next_name synth_name taken f k = None ->
+    incl (map (fun i => synth_name (k + N.of_nat i)) (seq 0 f)) taken.
   Proof.
-    intros t l sh x H. unfold find_shared in H.
-    destruct (find (fun e => (fst (fst e) =? t) && L_eqb (snd (fst e)) l) sh) as [e|] eqn:F; [|discriminate].
+    induction f as [|f IH]; intros k H; simpl in *; [intros x []|].
+    destruct (mem (synth_name k) taken) eqn:M; [|discriminate].
+    intros x [Hx|Hx].
+    - subst x. rewrite N.add_0_r. apply mem_true. exact M.
+    - rewrite <- seq_shift in Hx. rewrite map_map in Hx. apply (IH (k + 1) H).
+      apply in_map_iff in Hx. destruct Hx as [i [E Hi]]. apply in_map_iff. exists i. split; [|exact Hi].
+      rewrite <- E. f_equal. lia.
+  Qed.
+
+  (* the loop finds a name: more candidates than taken names *)
+  Lemma next_name_total : forall k, next_name synth_name taken (name_fuel taken) k <> None.
+  Proof.
+    intros k H. apply next_name_none in H.
+    assert (ND : NoDup (map (fun i => synth_name (k + N.of_nat i)) (seq 0 (name_fuel taken)))).
+    { apply Injective_map_NoDup; [|apply seq_NoDup].
+      intros a b E. apply synth_name_inj in E. lia. }
+    pose proof (NoDup_incl_length ND H) as Hl. rewrite map_length, seq_length in Hl.
+    unfold name_fuel in Hl. lia.
+  Qed.
+
+  (* ---- the shared table ---- *)
+
+  Lemma find_shared_spec : forall t v sh x, find_shared t v sh = Some x -> In (t, v, x) sh.
+  Proof.
+    intros t v sh x H. unfold Normalize.find_shared in H.
+    destruct (find (fun e => (fst (fst e) =? t) && value_eqb (snd (fst e)) v) sh) as [e|] eqn:F; [|discriminate].
     injection H as H. apply find_some in F. destruct F as [Hin Hb].
-    apply andb_true_iff in Hb. destruct Hb as [Hb1 Hb2]. apply N.eqb_eq in Hb1. apply L_eqb_eq in Hb2.
+    apply andb_true_iff in Hb. destruct Hb as [Hb1 Hb2]. apply N.eqb_eq in Hb1. apply value_eqb_eq in Hb2.
     destruct e as [[t' l'] x']. simpl in *. subst. exact Hin.
+  Qed.
+
+  Lemma find_shared_cons_same : forall t v x sh, find_shared t v ((t, v, x) :: sh) = Some x.
+  Proof. intros. unfold Normalize.find_shared. simpl. rewrite N.eqb_refl, value_eqb_refl. reflexivity. Qed.
+
+  Lemma find_shared_cons_other : forall t v x sh t2 v2 y,
+    find_shared t v sh = None -> find_shared t2 v2 sh = Some y -> find_shared t2 v2 ((t, v, x) :: sh) = Some y.
+  Proof.
+    intros t v x sh t2 v2 y Hn Hs. unfold Normalize.find_shared. simpl.
+    destruct ((t =? t2) && value_eqb v v2) eqn:E; [|exact Hs].
+    apply andb_true_iff in E. destruct E as [E1 E2]. apply N.eqb_eq in E1. apply value_eqb_eq in E2. subst.
+    rewrite Hn in Hs. discriminate Hs.
   Qed.
 
   (* ---- one argument ---- *)
@@ -115,57 +164,77 @@ Section NormProofs.
   Lemma unchanged_arg : forall env' st ot (v : value),
     agrees env' st -> incl (value_vars v) taken -> denote_arg env' ot v = denote_arg env ot v.
   Proof.
-    intros env' st ot v [_ HA] Hv. unfold Normalize.denote_arg.
-    assert (R : restrict env' (value_vars v) = restrict env (value_vars v)).
-    { apply restrict_agree. intros x Hx. apply HA. apply Hv. exact Hx. }
-    destruct ot as [t|]; destruct v as [x|l|m]; try (rewrite R; reflexivity); try reflexivity.
-    rewrite HA; [reflexivity|]. apply Hv. simpl. left. reflexivity.
+    intros env' st ot v [_ HA] Hv. unfold Normalize.denote_arg. destruct ot as [t|].
+    - f_equal. apply coerce_local. intros x Hx. apply HA. apply Hv. exact Hx.
+    - f_equal. apply restrict_agree. intros x Hx. apply HA. apply Hv. exact Hx.
+  Qed.
+
+  Lemma extract_value_closed : forall t v c, extract_value t v = Some c ->
+    value_vars v = [] /\ lit_valid t v = true /\ coerce t v no_vars = Some c /\ var_coerce t c = Some c.
+  Proof.
+    intros t v c H. unfold Normalize.extract_value in H.
+    destruct (value_vars v); [|discriminate].
+    destruct (lit_valid t v); simpl in H; [|discriminate].
+    destruct (coerce t v no_vars) as [c0|]; [|discriminate].
+    destruct (var_coerce t c0) as [c'|] eqn:VC; [|discriminate].
+    destruct (cval_eqb c' c0) eqn:CE; [|discriminate].
+    injection H as <-. apply cval_eqb_eq in CE. subst c'. repeat split; assumption.
   Qed.
 
   Lemma try_extract_ok : forall st t (v : value) st' v',
     try_extract st t v = (st', v') -> wf st -> incl (value_vars v) taken ->
-    wf st' /\ ext st st' /\
-    forall env', agrees env' st' -> denote_arg env' (Some t) v' = denote_arg env (Some t) v.
+    wf st' /\ ext st st' /\ sext st st' /\
+    (forall stF, sext st' stF -> v' = sub_value stF t v) /\
+    (forall env', agrees env' st' -> denote_arg env' (Some t) v' = denote_arg env (Some t) v).
   Proof.
-    intros st t v st' v' H W Hv.
-    assert (Same : st' = st -> v' = v -> wf st' /\ ext st st' /\
-                   forall env', agrees env' st' -> denote_arg env' (Some t) v' = denote_arg env (Some t) v).
-    { intros -> ->. split; [exact W|split; [apply ext_refl|]]. intros env' HA. eapply unchanged_arg; eassumption. }
-    unfold Normalize.try_extract in H.
-    destruct v as [x|l|m]; try (injection H as <- <-; apply Same; reflexivity).
-    destruct (lit_coerce t l) as [c|] eqn:LC; [|injection H as <- <-; apply Same; reflexivity].
-    destruct (var_coerce t c) as [c'|] eqn:VC; [|injection H as <- <-; apply Same; reflexivity].
-    destruct (cval_eqb c' c) eqn:CE; [|injection H as <- <-; apply Same; reflexivity].
-    apply cval_eqb_eq in CE. subst c'.
-    destruct (find_shared L_eqb t l (n_shared st)) as [x|] eqn:FS.
-    - injection H as <- <-. split; [exact W|split; [apply ext_refl|]].
-      intros env' [HA _]. apply find_shared_spec in FS.
-      destruct W as [_ [W2 _]]. destruct (W2 _ _ _ FS) as [c0 [E0 Hin]].
-      simpl. rewrite (HA _ _ _ Hin). rewrite LC in E0. injection E0 as <-. rewrite LC. reflexivity.
-    - destruct (next_name synth_name taken fuel (n_counter st)) as [[x k']|] eqn:NN;
-        [|injection H as <- <-; apply Same; reflexivity].
-      injection H as <- <-. destruct (next_name_spec _ _ _ _ NN) as [Hfresh [j [Hj1 [Hj2 Hj3]]]].
-      destruct W as [W1 [W2 W3]].
-      assert (Hnew : forall t0 c0, In (x, (t0, c0)) (n_synth st) -> False).
-      { intros t0 c0 Hin. destruct (W1 _ _ _ Hin) as [_ [_ [k0 [Hk0 Ex]]]].
-        rewrite Hj3 in Ex. apply synth_name_inj in Ex. lia. }
-      split; [|split].
-      + split; [|split]; simpl.
-        * intros y t0 c0 Hin. apply in_app_or in Hin. destruct Hin as [Hin|[Hin|[]]].
-          -- destruct (W1 _ _ _ Hin) as [A [B [k0 [C D]]]]. split; [exact A|split; [exact B|]]. exists k0. split; [lia|exact D].
-          -- injection Hin as <- <- <-. split; [exact VC|split; [exact Hfresh|]]. exists j. split; [exact Hj2|exact Hj3].
-        * intros t0 l0 y [Hin|Hin].
-          -- injection Hin as <- <- <-. exists c. split; [exact LC|]. apply in_or_app. right. left. reflexivity.
-          -- destruct (W2 _ _ _ Hin) as [c0 [A B]]. exists c0. split; [exact A|]. apply in_or_app. left. exact B.
-        * intros y t1 c1 t2 c2 H1 H2. apply in_app_or in H1. apply in_app_or in H2.
-          destruct H1 as [H1|[H1|[]]]; destruct H2 as [H2|[H2|[]]].
-          -- apply (W3 y); assumption.
-          -- injection H2 as <- <- <-. exfalso. eapply Hnew. exact H1.
-          -- injection H1 as <- <- <-. exfalso. eapply Hnew. exact H2.
-          -- injection H1 as <- <- <-. injection H2 as <- <-. split; reflexivity.
-      + unfold ext. simpl. apply incl_appl. apply incl_refl.
-      + intros env' [HA _]. simpl. rewrite LC.
-        rewrite (HA x t c); [reflexivity|]. simpl. apply in_or_app. right. left. reflexivity.
+    intros st t v st' v' H W Hv. unfold Normalize.try_extract in H.
+    destruct (extract_value t v) as [c|] eqn:EV.
+    - destruct (extract_value_closed _ _ _ EV) as [Hnv [_ [HC VC]]].
+      assert (Den : forall env' x, env' x = Some c -> denote_arg env' (Some t) (VVar x) = denote_arg env (Some t) v).
+      { intros env' x Hx. unfold Normalize.denote_arg. rewrite coerce_var, Hx. f_equal.
+        rewrite <- HC. apply coerce_local. rewrite Hnv. intros y []. }
+      destruct (find_shared t v (n_shared st)) as [x|] eqn:FS.
+      + injection H as <- <-. split; [exact W|split; [apply ext_refl|split; [apply sext_refl|split]]].
+        * intros stF HF. unfold Normalize.sub_value. rewrite EV. rewrite (HF _ _ _ FS). reflexivity.
+        * intros env' [HA _]. apply Den. apply find_shared_spec in FS.
+          destruct W as [_ [W2 _]]. destruct (W2 _ _ _ FS) as [c0 [E0 Hin]].
+          rewrite EV in E0. injection E0 as <-. apply (HA _ _ _ Hin).
+      + destruct (next_name synth_name taken (name_fuel taken) (n_counter st)) as [[x k']|] eqn:NN;
+          [|exfalso; exact (next_name_total _ NN)].
+        injection H as <- <-. destruct (next_name_spec _ _ _ _ NN) as [Hfresh [j [Hj1 [Hj2 Hj3]]]].
+        destruct W as [W1 [W2 [W3 W4]]].
+        assert (Hnew : forall t0 c0, In (x, (t0, c0)) (n_synth st) -> False).
+        { intros t0 c0 Hin. destruct (W1 _ _ _ Hin) as [_ [_ [k0 [Hk0 Ex]]]].
+          rewrite Hj3 in Ex. apply synth_name_inj in Ex. lia. }
+        assert (Hnew2 : forall t0 v0, In (t0, v0, x) (n_shared st) -> False).
+        { intros t0 v0 Hin. destruct (W2 _ _ _ Hin) as [c0 [_ Hs]]. eapply Hnew. exact Hs. }
+        split; [|split; [|split; [|split]]].
+        * split; [|split; [|split]]; simpl.
+          -- intros y t0 c0 Hin. apply in_app_or in Hin. destruct Hin as [Hin|[Hin|[]]].
+             ++ destruct (W1 _ _ _ Hin) as [A [B [k0 [C D]]]]. split; [exact A|split; [exact B|]]. exists k0. split; [lia|exact D].
+             ++ injection Hin as <- <- <-. split; [exact VC|split; [exact Hfresh|]]. exists j. split; [exact Hj2|exact Hj3].
+          -- intros t0 l0 y [Hin|Hin].
+             ++ injection Hin as <- <- <-. exists c. split; [exact EV|]. apply in_or_app. right. left. reflexivity.
+             ++ destruct (W2 _ _ _ Hin) as [c0 [A B]]. exists c0. split; [exact A|]. apply in_or_app. left. exact B.
+          -- intros y t1 c1 t2 c2 H1 H2. apply in_app_or in H1. apply in_app_or in H2.
+             destruct H1 as [H1|[H1|[]]]; destruct H2 as [H2|[H2|[]]].
+             ++ apply (W3 y); assumption.
+             ++ injection H2 as <- <- <-. exfalso. eapply Hnew. exact H1.
+             ++ injection H1 as <- <- <-. exfalso. eapply Hnew. exact H2.
+             ++ injection H1 as <- <- <-. injection H2 as <- <-. split; reflexivity.
+          -- intros t1 v1 t2 v2 y [H1|H1] [H2|H2].
+             ++ injection H1 as <- <- <-. injection H2 as <- <-. split; reflexivity.
+             ++ injection H1 as <- <- <-. exfalso. eapply Hnew2. exact H2.
+             ++ injection H2 as <- <- <-. exfalso. eapply Hnew2. exact H1.
+             ++ apply (W4 _ _ _ _ y); assumption.
+        * unfold ext. simpl. apply incl_appl. apply incl_refl.
+        * intros t2 v2 y Hy. simpl. apply find_shared_cons_other; assumption.
+        * intros stF HF. unfold Normalize.sub_value. rewrite EV.
+          rewrite (HF t v x); [reflexivity|]. simpl. apply find_shared_cons_same.
+        * intros env' [HA _]. apply Den. apply (HA x t c). simpl. apply in_or_app. right. left. reflexivity.
+    - injection H as <- <-. split; [exact W|split; [apply ext_refl|split; [apply sext_refl|split]]].
+      + intros stF _. unfold Normalize.sub_value. rewrite EV. reflexivity.
+      + intros env' HA. eapply unchanged_arg; eassumption.
   Qed.
 
   (* ---- argument lists ---- *)
@@ -174,30 +243,44 @@ Section NormProofs.
     map (fun a => (fst a, denote_arg e (arg_ty o nm (fst a)) (snd a))) args.
 
   Lemma norm_args_ok : forall o nm (args : list (name * value)) st st' args',
-    norm_args st o nm args = (st', args') -> wf st ->
-    incl (flat_map (fun a => value_vars (snd a)) args) taken ->
-    wf st' /\ ext st st' /\
-    forall env', agrees env' st' -> dargs env' o nm args' = dargs env o nm args.
+    norm_args st o nm args = (st', args') -> wf st -> incl (args_vars args) taken ->
+    wf st' /\ ext st st' /\ sext st st' /\
+    (forall stF, sext st' stF -> args' = sub_args stF o nm args) /\
+    (forall env', agrees env' st' -> dargs env' o nm args' = dargs env o nm args).
   Proof.
     intros o nm. induction args as [|[a v] r IH]; intros st st' args' H W Hv; simpl in H.
-    - injection H as <- <-. split; [exact W|split; [apply ext_refl|reflexivity]].
+    - injection H as <- <-. split; [exact W|split; [apply ext_refl|split; [apply sext_refl|split; reflexivity]]].
     - destruct (match arg_ty o nm a with Some t => try_extract st t v | None => (st, v) end) as [st1 v1] eqn:E1.
       destruct (norm_args st1 o nm r) as [st2 r'] eqn:E2. injection H as <- <-.
-      simpl in Hv. apply incl_app_inv in Hv. destruct Hv as [Hv1 Hv2].
-      assert (Step : wf st1 /\ ext st st1 /\
+      unfold args_vars in Hv. simpl in Hv. apply incl_app_inv in Hv. destruct Hv as [Hv1 Hv2].
+      assert (Step : wf st1 /\ ext st st1 /\ sext st st1 /\
+                     (forall stF, sext st1 stF -> v1 = match arg_ty o nm a with Some t => sub_value stF t v | None => v end) /\
                      forall env', agrees env' st1 -> denote_arg env' (arg_ty o nm a) v1 = denote_arg env (arg_ty o nm a) v).
       { destruct (arg_ty o nm a) as [t|].
         - eapply try_extract_ok; eassumption.
-        - injection E1 as <- <-. split; [exact W|split; [apply ext_refl|]].
-          intros env' HA. eapply unchanged_arg; eassumption. }
-      destruct Step as [W1 [X1 D1]]. destruct (IH _ _ _ E2 W1 Hv2) as [W2 [X2 D2]].
-      split; [exact W2|split; [eapply ext_trans; eassumption|]].
-      intros env' HA. unfold dargs. simpl. f_equal.
-      + f_equal. apply D1. eapply agrees_ext; eassumption.
-      + apply D2. exact HA.
+        - injection E1 as <- <-. split; [exact W|split; [apply ext_refl|split; [apply sext_refl|split]]].
+          + reflexivity.
+          + intros env' HA. eapply unchanged_arg; eassumption. }
+      destruct Step as [W1 [X1 [S1 [B1 D1]]]]. destruct (IH _ _ _ E2 W1 Hv2) as [W2 [X2 [S2 [B2 D2]]]].
+      split; [exact W2|split; [eapply ext_trans; eassumption|split; [eapply sext_trans; eassumption|split]]].
+      + intros stF HF. unfold Normalize.sub_args. simpl. f_equal.
+        * f_equal. apply B1. eapply sext_trans; eassumption.
+        * apply B2. exact HF.
+      + intros env' HA. unfold dargs. simpl. f_equal.
+        * f_equal. apply D1. eapply agrees_ext; eassumption.
+        * apply D2. exact HA.
   Qed.
 
-  (* ---- selections ---- *)
+  (* ---- directives and untyped regions are left alone ---- *)
+
+  Lemma unchanged_dirs : forall env' st (ds : list (@dir L)), agrees env' st -> incl (dirs_vars ds) taken ->
+    map (denote_dir env') ds = map (denote_dir env) ds.
+  Proof.
+    intros env' st ds HA Hd. apply map_ext_in. intros d Hin. unfold Normalize.denote_dir. f_equal.
+    apply map_ext_in. intros a Ha. f_equal. eapply unchanged_arg; [exact HA|].
+    intros x Hx. apply Hd. unfold dirs_vars. apply in_flat_map. exists d. split; [exact Hin|].
+    unfold args_vars. apply in_flat_map. exists a. split; assumption.
+  Qed.
 
   Lemma unchanged_opaque : forall env' st (s : sel), agrees env' st -> incl (sel_vars s) taken -> opaque env' s = opaque env s.
   Proof.
@@ -205,76 +288,84 @@ Section NormProofs.
     intros x Hx. apply HA. apply Hs. exact Hx.
   Qed.
 
+  (* ---- selections ---- *)
+
   Definition good (s : sel) : Prop :=
     forall o st st' s', norm_sel o st s = (st', s') -> wf st -> incl (sel_vars s) taken ->
-      wf st' /\ ext st st' /\ forall env', agrees env' st' -> denote env' o s' = denote env o s.
+      wf st' /\ ext st st' /\ sext st st' /\
+      (forall stF, sext st' stF -> s' = sub_sel stF o s) /\
+      (forall env', agrees env' st' -> denote env' o s' = denote env o s).
 
   Lemma norm_list_ok : forall o (l : list sel), Forall good l ->
     forall st st' l', norm_list (norm_sel o) st l = (st', l') -> wf st -> incl (flat_map sel_vars l) taken ->
-      wf st' /\ ext st st' /\ forall env', agrees env' st' -> map (denote env' o) l' = map (denote env o) l.
+      wf st' /\ ext st st' /\ sext st st' /\
+      (forall stF, sext st' stF -> l' = map (sub_sel stF o) l) /\
+      (forall env', agrees env' st' -> map (denote env' o) l' = map (denote env o) l).
   Proof.
     intros o l HF. induction HF as [|s r Hs _ IH]; intros st st' l' H W Hv; simpl in H.
-    - injection H as <- <-. split; [exact W|split; [apply ext_refl|reflexivity]].
+    - injection H as <- <-. split; [exact W|split; [apply ext_refl|split; [apply sext_refl|split; reflexivity]]].
     - destruct (norm_sel o st s) as [st1 s1] eqn:E1.
       destruct (norm_list (norm_sel o) st1 r) as [st2 r1] eqn:E2. injection H as <- <-.
       simpl in Hv. apply incl_app_inv in Hv. destruct Hv as [Hv1 Hv2].
-      destruct (Hs _ _ _ _ E1 W Hv1) as [W1 [X1 D1]]. destruct (IH _ _ _ E2 W1 Hv2) as [W2 [X2 D2]].
-      split; [exact W2|split; [eapply ext_trans; eassumption|]].
-      intros env' HA. simpl. f_equal; [apply D1; eapply agrees_ext; eassumption|apply D2; exact HA].
+      destruct (Hs _ _ _ _ E1 W Hv1) as [W1 [X1 [S1 [B1 D1]]]].
+      destruct (IH _ _ _ E2 W1 Hv2) as [W2 [X2 [S2 [B2 D2]]]].
+      split; [exact W2|split; [eapply ext_trans; eassumption|split; [eapply sext_trans; eassumption|split]]].
+      + intros stF HF'. simpl. f_equal; [apply B1; eapply sext_trans; eassumption|apply B2; exact HF'].
+      + intros env' HA. simpl. f_equal; [apply D1; eapply agrees_ext; eassumption|apply D2; exact HA].
   Qed.
-
-  Lemma deco_restrict : forall env' st (d : deco), agrees env' st -> incl (deco_vars d) taken ->
-    restrict env' (deco_vars d) = restrict env (deco_vars d).
-  Proof. intros env' st d [_ HA] Hd. apply restrict_agree. intros x Hx. apply HA. apply Hd. exact Hx. Qed.
 
   Lemma all_good : forall s, good s.
   Proof.
     apply sel_ind'.
     - (* Field *)
-      intros d nm args sub HF o st st' s' H W Hv. simpl in H.
-      simpl in Hv. apply incl_app_inv in Hv. destruct Hv as [Hd Hv]. apply incl_app_inv in Hv. destruct Hv as [Ha Hsub].
+      intros al nm args ds sub HF o st st' s' H W Hv. simpl in H.
+      simpl in Hv. apply incl_app_inv in Hv. destruct Hv as [Ha Hv]. apply incl_app_inv in Hv. destruct Hv as [Hd Hsub].
       destruct (field_def o nm) as [ft|] eqn:FD.
       + destruct (norm_args st o nm args) as [st1 args'] eqn:E1.
-        destruct (norm_args_ok _ _ _ _ _ _ E1 W Ha) as [W1 [X1 D1]].
+        destruct (norm_args_ok _ _ _ _ _ _ E1 W Ha) as [W1 [X1 [S1 [B1 D1]]]].
         destruct ft as [o'|].
         * destruct (norm_list (norm_sel o') st1 sub) as [st2 sub'] eqn:E2. injection H as <- <-.
-          destruct (norm_list_ok o' sub HF _ _ _ E2 W1 Hsub) as [W2 [X2 D2]].
-          split; [exact W2|split; [eapply ext_trans; eassumption|]].
-          intros env' HA. simpl. rewrite FD.
-          rewrite (deco_restrict env' st2 d HA Hd).
-          fold (dargs env' o nm args'). fold (dargs env o nm args).
-          rewrite (D1 env' (agrees_ext _ _ _ X2 HA)). rewrite (D2 env' HA). reflexivity.
-        * injection H as <- <-. split; [exact W1|split; [exact X1|]].
-          intros env' HA. simpl. rewrite FD.
-          rewrite (deco_restrict env' st1 d HA Hd).
-          fold (dargs env' o nm args'). fold (dargs env o nm args). rewrite (D1 env' HA).
-          f_equal. apply map_ext_in. intros s Hs. eapply unchanged_opaque; [exact HA|].
-          intros x Hx. apply Hsub. apply in_flat_map. exists s. split; assumption.
-      + injection H as <- <-. split; [exact W|split; [apply ext_refl|]].
-        intros env' HA. simpl. rewrite FD. eapply unchanged_opaque; [exact HA|].
-        simpl. apply incl_app; [exact Hd|apply incl_app; assumption].
+          destruct (norm_list_ok o' sub HF _ _ _ E2 W1 Hsub) as [W2 [X2 [S2 [B2 D2]]]].
+          split; [exact W2|split; [eapply ext_trans; eassumption|split; [eapply sext_trans; eassumption|split]]].
+          -- intros stF HF'. simpl. rewrite FD. f_equal; [apply B1; eapply sext_trans; eassumption|apply B2; exact HF'].
+          -- intros env' HA. simpl. rewrite FD.
+             rewrite (unchanged_dirs env' st2 ds HA Hd).
+             fold (dargs env' o nm args'). fold (dargs env o nm args).
+             rewrite (D1 env' (agrees_ext _ _ _ X2 HA)). rewrite (D2 env' HA). reflexivity.
+        * injection H as <- <-. split; [exact W1|split; [exact X1|split; [exact S1|split]]].
+          -- intros stF HF'. simpl. rewrite FD. f_equal. apply B1. exact HF'.
+          -- intros env' HA. simpl. rewrite FD.
+             rewrite (unchanged_dirs env' st1 ds HA Hd).
+             fold (dargs env' o nm args'). fold (dargs env o nm args). rewrite (D1 env' HA).
+             f_equal. apply map_ext_in. intros s Hs. eapply unchanged_opaque; [exact HA|].
+             intros x Hx. apply Hsub. apply in_flat_map. exists s. split; assumption.
+      + injection H as <- <-. split; [exact W|split; [apply ext_refl|split; [apply sext_refl|split]]].
+        * intros stF _. simpl. rewrite FD. reflexivity.
+        * intros env' HA. simpl. rewrite FD. eapply unchanged_opaque; [exact HA|].
+          simpl. apply incl_app; [exact Ha|apply incl_app; assumption].
     - (* Inline *)
-      intros d tc sub HF o st st' s' H W Hv. simpl in H.
+      intros tc ds sub HF o st st' s' H W Hv. simpl in H.
       simpl in Hv. apply incl_app_inv in Hv. destruct Hv as [Hd Hsub].
-      set (o' := match tc with Some n => match tc_obj n with Some x => x | None => o end | None => o end) in *.
-      destruct (norm_list (norm_sel o') st sub) as [st1 sub'] eqn:E1. injection H as <- <-.
-      destruct (norm_list_ok o' sub HF _ _ _ E1 W Hsub) as [W1 [X1 D1]].
-      split; [exact W1|split; [exact X1|]].
-      intros env' HA. simpl. fold o'. rewrite (deco_restrict env' st1 d HA Hd). rewrite (D1 env' HA). reflexivity.
+      destruct (norm_list (norm_sel (cond_type tc_obj o tc)) st sub) as [st1 sub'] eqn:E1. injection H as <- <-.
+      destruct (norm_list_ok _ sub HF _ _ _ E1 W Hsub) as [W1 [X1 [S1 [B1 D1]]]].
+      split; [exact W1|split; [exact X1|split; [exact S1|split]]].
+      + intros stF HF'. simpl. f_equal. apply B1. exact HF'.
+      + intros env' HA. simpl. rewrite (unchanged_dirs env' st1 ds HA Hd). rewrite (D1 env' HA). reflexivity.
     - (* Spread *)
-      intros d f o st st' s' H W Hv. simpl in H. injection H as <- <-.
-      split; [exact W|split; [apply ext_refl|]].
-      intros env' HA. simpl. simpl in Hv. rewrite (deco_restrict env' st d HA Hv). reflexivity.
+      intros f ds o st st' s' H W Hv. simpl in H. injection H as <- <-.
+      split; [exact W|split; [apply ext_refl|split; [apply sext_refl|split]]].
+      + intros stF _. reflexivity.
+      + intros env' HA. simpl. simpl in Hv. rewrite (unchanged_dirs env' st ds HA Hv). reflexivity.
   Qed.
 
   (* ---- the executor's variable values for the normalised operation ---- *)
 
   Lemma wf_init : wf n_init.
-  Proof. split; [|split]; simpl; intros; contradiction. Qed.
+  Proof. split; [|split; [|split]]; simpl; intros; contradiction. Qed.
 
   Lemma extend_agrees : forall st, wf st -> agrees (extend var_coerce env (n_synth st)) st.
   Proof.
-    intros st [W1 [_ W3]]. split.
+    intros st [W1 [_ [W3 _]]]. split.
     - intros x t c Hin. unfold extend.
       destruct (find (fun e => fst e =? x) (n_synth st)) as [e|] eqn:F.
       + apply find_some in F. destruct F as [Hin' Hx]. apply N.eqb_eq in Hx.
@@ -295,25 +386,60 @@ Section NormProofs.
     incl (sel_vars s) taken -> denote env' o s = denote env o s.
   Proof.
     intros s. pattern s. apply sel_ind'; clear s.
-    - intros d nm args sub HF o env' HE Hv. pose proof (agrees_init env' HE) as HA.
-      simpl in Hv. apply incl_app_inv in Hv. destruct Hv as [Hd Hv]. apply incl_app_inv in Hv. destruct Hv as [Ha Hsub].
+    - intros al nm args ds sub HF o env' HE Hv. pose proof (agrees_init env' HE) as HA.
+      simpl in Hv. apply incl_app_inv in Hv. destruct Hv as [Ha Hv]. apply incl_app_inv in Hv. destruct Hv as [Hd Hsub].
       simpl. destruct (field_def o nm) as [ft|] eqn:FD.
-      + rewrite (deco_restrict env' n_init d HA Hd). f_equal.
+      + rewrite (unchanged_dirs env' n_init ds HA Hd). f_equal.
         * apply map_ext_in. intros a Hin. f_equal. eapply unchanged_arg; [exact HA|].
-          intros x Hx. apply Ha. apply in_flat_map. exists a. split; assumption.
+          intros x Hx. apply Ha. unfold args_vars. apply in_flat_map. exists a. split; assumption.
         * destruct ft as [o'|].
           -- apply map_ext_in. intros s Hs. rewrite Forall_forall in HF. apply (HF s Hs); [exact HE|].
              intros x Hx. apply Hsub. apply in_flat_map. exists s. split; assumption.
           -- apply map_ext_in. intros s Hs. eapply unchanged_opaque; [exact HA|].
              intros x Hx. apply Hsub. apply in_flat_map. exists s. split; assumption.
-      + eapply unchanged_opaque; [exact HA|]. simpl. apply incl_app; [exact Hd|apply incl_app; assumption].
-    - intros d tc sub HF o env' HE Hv. pose proof (agrees_init env' HE) as HA.
+      + eapply unchanged_opaque; [exact HA|]. simpl. apply incl_app; [exact Ha|apply incl_app; assumption].
+    - intros tc ds sub HF o env' HE Hv. pose proof (agrees_init env' HE) as HA.
       simpl in Hv. apply incl_app_inv in Hv. destruct Hv as [Hd Hsub].
-      simpl. rewrite (deco_restrict env' n_init d HA Hd). f_equal.
+      simpl. rewrite (unchanged_dirs env' n_init ds HA Hd). f_equal.
       apply map_ext_in. intros s Hs. rewrite Forall_forall in HF. apply (HF s Hs); [exact HE|].
       intros x Hx. apply Hsub. apply in_flat_map. exists s. split; assumption.
-    - intros d f o env' HE Hv. pose proof (agrees_init env' HE) as HA. simpl in Hv.
-      simpl. rewrite (deco_restrict env' n_init d HA Hv). reflexivity.
+    - intros f ds o env' HE Hv. pose proof (agrees_init env' HE) as HA. simpl in Hv.
+      simpl. rewrite (unchanged_dirs env' n_init ds HA Hv). reflexivity.
+  Qed.
+
+  (* sub_sel with nothing shared is the identity *)
+  Lemma sub_value_init : forall t (v : value), sub_value n_init t v = v.
+  Proof. intros. unfold Normalize.sub_value. destruct (extract_value t v); reflexivity. Qed.
+
+  Lemma sub_sel_init : forall (s : sel) o, sub_sel n_init o s = s.
+  Proof.
+    intros s. pattern s. apply sel_ind'; clear s.
+    - intros al nm args ds sub HF o. simpl. destruct (field_def o nm) as [[o'|]|]; [| |reflexivity].
+      + f_equal.
+        * unfold Normalize.sub_args. rewrite <- (map_id args) at 2. apply map_ext. intros [a v]. simpl.
+          destruct (arg_ty o nm a); [rewrite sub_value_init|]; reflexivity.
+        * rewrite <- (map_id sub) at 2. apply map_ext_in. intros x Hx. rewrite Forall_forall in HF. apply HF. exact Hx.
+      + f_equal. unfold Normalize.sub_args. rewrite <- (map_id args) at 2. apply map_ext. intros [a v]. simpl.
+        destruct (arg_ty o nm a); [rewrite sub_value_init|]; reflexivity.
+    - intros tc ds sub HF o. simpl. f_equal.
+      rewrite <- (map_id sub) at 2. apply map_ext_in. intros x Hx. rewrite Forall_forall in HF. apply HF. exact Hx.
+    - reflexivity.
+  Qed.
+
+  Lemma normalize_ok : forall root (sels : list sel) st sels',
+    normalize root sels = (st, sels') -> incl (flat_map sel_vars sels) taken ->
+    wf st /\ sels' = map (sub_sel st root) sels /\
+    forall e, agrees e st -> map (denote e root) sels' = map (denote env root) sels.
+  Proof.
+    intros root sels st sels' H Hv. unfold Normalize.normalize in H.
+    destruct (existsb spreads sels).
+    - injection H as <- <-. split; [apply wf_init|split].
+      + rewrite <- (map_id sels) at 1. apply map_ext. intro s. symmetry. apply sub_sel_init.
+      + intros e [_ HE]. apply map_ext_in. intros s Hs. apply denote_agree; [exact HE|].
+        intros x Hx. apply Hv. apply in_flat_map. exists s. split; assumption.
+    - assert (HF : Forall good sels) by (apply Forall_forall; intros s _; apply all_good).
+      destruct (norm_list_ok root sels HF _ _ _ H wf_init Hv) as [W [_ [_ [B D]]]].
+      split; [exact W|split; [apply B; apply sext_refl|exact D]].
   Qed.
 
   Lemma normalize_transparent : forall root (sels : list sel) st sels',
@@ -323,17 +449,57 @@ Section NormProofs.
     (forall y, In y taken -> env' y = env y) /\
     (forall x t c, In (x, (t, c)) (n_synth st) -> ~ In x taken /\ var_coerce t c = Some c /\ env' x = Some c).
   Proof.
-    intros root sels st sels' H Hv env'. unfold Normalize.normalize in H.
-    assert (G : wf st /\ forall e, agrees e st -> map (denote e root) sels' = map (denote env root) sels).
-    { destruct (existsb spreads sels).
-      - injection H as <- <-. split; [apply wf_init|]. intros e [_ HE].
-        apply map_ext_in. intros s Hs. apply denote_agree; [exact HE|].
-        intros x Hx. apply Hv. apply in_flat_map. exists s. split; assumption.
-      - assert (HF : Forall good sels) by (apply Forall_forall; intros s _; apply all_good).
-        destruct (norm_list_ok root sels HF _ _ _ H wf_init Hv) as [W [_ D]]. split; [exact W|exact D]. }
-    destruct G as [W D]. pose proof (extend_agrees st W) as HA. fold env' in HA.
+    intros root sels st sels' H Hv env'.
+    destruct (normalize_ok root sels st sels' H Hv) as [W [_ D]].
+    pose proof (extend_agrees st W) as HA. fold env' in HA.
     split; [apply D; exact HA|]. destruct HA as [HA1 HA2]. split; [exact HA2|].
     intros x t c Hin. destruct W as [W1 _]. destruct (W1 _ _ _ Hin) as [A [B _]].
     split; [exact B|split; [exact A|apply (HA1 _ _ _ Hin)]].
   Qed.
+
+  (* ---- validation verdicts ---- *)
+
+  (* sameArguments (overlapping fields): two values at positions of one type are
+     rewritten to equal values exactly when they were equal *)
+  Lemma sub_value_inj : forall st t (v1 v2 : value), wf st ->
+    incl (value_vars v1) taken -> incl (value_vars v2) taken ->
+    sub_value st t v1 = sub_value st t v2 -> v1 = v2.
+  Proof.
+    intros st t v1 v2 [W1 [W2 [_ W4]]] H1 H2 E. unfold Normalize.sub_value in E.
+    assert (Fresh : forall v x, find_shared t v (n_shared st) = Some x -> ~ In x taken).
+    { intros v x F. apply find_shared_spec in F. destruct (W2 _ _ _ F) as [c [_ Hin]]. apply (W1 _ _ _ Hin). }
+    destruct (extract_value t v1) as [c1|]; destruct (extract_value t v2) as [c2|].
+    - destruct (find_shared t v1 (n_shared st)) as [x1|] eqn:F1; destruct (find_shared t v2 (n_shared st)) as [x2|] eqn:F2.
+      + injection E as <-. apply find_shared_spec in F1. apply find_shared_spec in F2.
+        destruct (W4 _ _ _ _ _ F1 F2) as [_ Hv]. exact Hv.
+      + exfalso. apply (Fresh _ _ F1). apply H2. rewrite <- E. left. reflexivity.
+      + exfalso. apply (Fresh _ _ F2). apply H1. rewrite E. left. reflexivity.
+      + exact E.
+    - destruct (find_shared t v1 (n_shared st)) as [x1|] eqn:F1; [|exact E].
+      exfalso. apply (Fresh _ _ F1). apply H2. rewrite <- E. left. reflexivity.
+    - destruct (find_shared t v2 (n_shared st)) as [x2|] eqn:F2; [|exact E].
+      exfalso. apply (Fresh _ _ F2). apply H1. rewrite E. left. reflexivity.
+    - exact E.
+  Qed.
+
+  (* every rewritten position carries a synthetic variable declared with the
+     type of that position, bound to the coerced value of the literal that
+     stood there, which was a valid literal for the position *)
+  Lemma sub_value_changed : forall st t (v : value), wf st -> sub_value st t v <> v ->
+    exists x c, sub_value st t v = VVar x /\ In (x, (t, c)) (n_synth st) /\
+                extract_value t v = Some c /\ lit_valid t v = true /\ var_coerce t c = Some c /\ ~ In x taken.
+  Proof.
+    intros st t v [W1 [W2 _]] Hne. unfold Normalize.sub_value in *.
+    destruct (extract_value t v) as [c|] eqn:EV; [|congruence].
+    destruct (find_shared t v (n_shared st)) as [x|] eqn:F; [|congruence].
+    apply find_shared_spec in F. destruct (W2 _ _ _ F) as [c0 [E0 Hin]]. rewrite EV in E0. injection E0 as <-.
+    destruct (extract_value_closed _ _ _ EV) as [_ [LV [_ VC]]].
+    exists x, c. repeat split; try assumption. apply (W1 _ _ _ Hin).
+  Qed.
+
+  (* the synthetic definitions: pairwise distinct names, none used by the document *)
+  Lemma synth_defs_unique : forall st, wf st ->
+    (forall x t1 c1 t2 c2, In (x, (t1, c1)) (n_synth st) -> In (x, (t2, c2)) (n_synth st) -> t1 = t2 /\ c1 = c2) /\
+    (forall x t c, In (x, (t, c)) (n_synth st) -> ~ In x taken).
+  Proof. intros st [W1 [_ [W3 _]]]. split; [exact W3|]. intros x t c Hin. apply (W1 _ _ _ Hin). Qed.
 End NormProofs.
